@@ -121,7 +121,8 @@ def verify_function(c, extra_options=None):
             if rec["nloops"] != len(heads):
                 raise BindingFailure(f"{c.short}: source has {len(heads)} loops, the sidecar was written against {rec['nloops']} (loop invariants are bound by ordinal)")
             for ordn in c.loops:
-                if isinstance(ordn, int) and rec["heads"][ordn] != heads[ordn]:
+                # the loop variable identifies the loop; a changed bound or iterable is a semantic change the invariants decide
+                if isinstance(ordn, int) and rec["heads"][ordn].split(" in ")[0] != heads[ordn].split(" in ")[0]:
                     raise BindingFailure(f"{c.short}: loop #{ordn} is now `{heads[ordn]}`, the sidecar invariant was written for `{rec['heads'][ordn]}`")
         st = entry_state(ex, c, fs)
         for nm, e in c.requires.items():
